@@ -567,6 +567,347 @@ Section ReadExact.
   Qed.
 End ReadExact.
 
+(* ================= GetPassthroughFd ================= *)
+
+(* chunks returned by two lookups are equal or disjoint *)
+Definition LookupDisjoint (lookup : Z -> option chunk) : Prop :=
+  forall x y ch ch', 0 <= x -> 0 <= y -> lookup x = Some ch -> lookup y = Some ch' ->
+    ch = ch' \/ c_off ch + c_size ch <= c_off ch' \/ c_off ch' + c_size ch' <= c_off ch.
+
+Lemma search_lookup_disjoint : forall ents n, tiles 0 ents n -> LookupDisjoint (search_lookup ents).
+Proof.
+  intros ents n Ht x y ch ch' Hx Hy H1 H2.
+  destruct (search_lookup_spec ents n x Ht Hx) as (Hin & Hout).
+  destruct (search_lookup_spec ents n y Ht Hy) as (Hin' & Hout').
+  destruct (Z_lt_le_dec x n) as [Hl|Hg]; [|rewrite (Hout Hg) in H1; discriminate].
+  destruct (Z_lt_le_dec y n) as [Hl'|Hg']; [|rewrite (Hout' Hg') in H2; discriminate].
+  destruct (Hin Hl) as (r & Hr & Heq & _). destruct (Hin' Hl') as (r' & Hr' & Heq' & _).
+  rewrite Heq in H1. rewrite Heq' in H2. inversion H1; inversion H2; subst.
+  destruct (lt_eq_lt_dec r r') as [[Hlt|Heqr]|Hgt].
+  - right; left. apply (tiles_order _ _ _ r r' Ht); assumption.
+  - left. now subst.
+  - right; right. apply (tiles_order _ _ _ r' r Ht); assumption.
+Qed.
+
+(* the chunk list the enumeration produces: tiling, and every chunk is what the lookup returns at its start *)
+Fixpoint chain (lookup : Z -> option chunk) (a : Z) (l : list chunk) (n : Z) : Prop :=
+  match l with
+  | [] => a = n
+  | ch :: t => c_off ch = a /\ 0 < c_size ch /\ lookup a = Some ch /\ chain lookup (a + c_size ch) t n
+  end.
+
+Lemma chain_tiles : forall lookup l a n, chain lookup a l n -> tiles a l n.
+Proof.
+  induction l as [|ch t IH]; intros a n H; simpl in *; [assumption|].
+  destruct H as (H1 & H2 & _ & H4). repeat split; try assumption. apply IH. assumption.
+Qed.
+
+(* no chunk is larger than the merge buffer or crosses a merge buffer boundary *)
+Definition fits (mbs : Z) (ch : chunk) : Prop :=
+  c_size ch <= mbs /\ Z.quot (c_off ch) mbs = Z.quot (c_off ch + c_size ch - 1) mbs.
+
+Section PassthroughProofs.
+  Variable id : nat.
+  Variable lookup : Z -> option chunk.
+  Variable under : cache -> chunk -> option (bytes * cache).
+  Variable data : bytes.
+  Variable Hon : cache -> Prop.
+  Let n := zlen data.
+
+  Hypothesis Hlk : LookupSpec lookup n.
+  Hypothesis Hdj : LookupDisjoint lookup.
+  Hypothesis Hon_get : forall c o s v, Hon c -> c (id, o, s) = Some v -> v = slice o s data.
+  Hypothesis Hon_add : forall c o s, Hon c -> Hon (cadd c (id, o, s) (slice o s data)).
+  Hypothesis Hunder : forall c ch, Hon c -> 0 <= c_off ch -> 0 <= c_size ch -> c_off ch + c_size ch <= n ->
+    exists c', under c ch = Some (slice (c_off ch) (c_size ch) data, c') /\ Hon c'.
+
+  (* the lookup at the end of a chunk returns a chunk that starts there *)
+  Lemma next_starts : forall x ch ch', 0 <= x -> lookup x = Some ch -> lookup (c_off ch + c_size ch) = Some ch' ->
+    c_off ch' = c_off ch + c_size ch.
+  Proof.
+    intros x ch ch' Hx H1 H2.
+    destruct (ls_inside _ _ Hlk x ch Hx H1) as (H0 & Hin & Hend).
+    assert (Hnn : 0 <= c_off ch + c_size ch) by lia.
+    destruct (ls_inside _ _ Hlk (c_off ch + c_size ch) ch' Hnn H2) as (H0' & Hin' & Hend').
+    destruct (Hdj x (c_off ch + c_size ch) ch ch' Hx Hnn H1 H2) as [He|[Hd|Hd]]; [subst ch'; lia|lia|lia].
+  Qed.
+
+  (* the enumeration succeeds and yields a chain from its start offset to n; "large" is false only if every chunk fits *)
+  Lemma pt_enum_ok : forall fuel mbs offset total large acc,
+    0 <= offset <= n -> n - offset < Z.of_nat fuel ->
+    (offset = 0 \/ exists x ch, 0 <= x /\ lookup x = Some ch /\ c_off ch + c_size ch = offset) ->
+    exists chs large',
+      pt_enum lookup fuel mbs offset total large acc = Some (Some (acc ++ chs, total + (n - offset), large'))
+      /\ chain lookup offset chs n
+      /\ (large' = false -> large = false /\ Forall (fits mbs) chs).
+  Proof.
+    induction fuel as [|fu IH]; intros mbs offset total large acc Ho Hf Hprev; [lia|].
+    cbn [pt_enum].
+    destruct (lookup offset) as [ch|] eqn:El.
+    - destruct (ls_inside _ _ Hlk offset ch ltac:(lia) El) as (H0 & Hin & Hend).
+      assert (Hco : c_off ch = offset).
+      { destruct Hprev as [->|(x & p & Hx & Hp & He)]; [lia|].
+        rewrite <- He in El. rewrite <- He. apply (next_starts x p ch Hx Hp El). }
+      replace (negb (c_off ch =? offset) || (c_size ch <=? 0) || (c_off ch + c_size ch <? c_off ch)) with false by lia.
+      set (l2 := large || (c_size ch >? mbs) || ((mbs >? 0) && negb (Z.quot (c_off ch) mbs =? Z.quot (c_off ch + c_size ch - 1) mbs))).
+      destruct (IH mbs (c_off ch + c_size ch) (total + c_size ch) l2 (acc ++ [ch])) as (chs & lg & Heq & Hch & Hfit).
+      + lia.
+      + lia.
+      + right. exists offset, ch. repeat split; [lia|assumption].
+      + exists (ch :: chs), lg. split; [|split].
+        * rewrite Heq. rewrite <- app_assoc. simpl.
+          replace (total + c_size ch + (n - (c_off ch + c_size ch))) with (total + (n - offset)) by lia. reflexivity.
+        * simpl. rewrite Hco. repeat split; try lia; try assumption. rewrite <- Hco. assumption.
+        * intros Hlg. destruct (Hfit Hlg) as (Hl2 & Hall). unfold l2 in Hl2.
+          apply orb_false_iff in Hl2. destruct Hl2 as (Hl2 & Hcross). apply orb_false_iff in Hl2. destruct Hl2 as (Hl & Hbig).
+          split; [assumption|]. constructor; [|assumption]. unfold fits. split; [lia|].
+          apply andb_false_iff in Hcross. destruct Hcross as [Hm|Hq]; [lia|].
+          apply negb_false_iff in Hq. apply Z.eqb_eq in Hq. assumption.
+    - exists [], large. split; [|split].
+      + rewrite app_nil_r.
+        destruct (Z_lt_le_dec offset n) as [Hl|Hg]; [exfalso; apply (ls_total _ _ Hlk offset); [lia|assumption]|].
+        replace (total + (n - offset)) with total by lia. reflexivity.
+      + simpl. destruct (Z_lt_le_dec offset n) as [Hl|Hg]; [exfalso; apply (ls_total _ _ Hlk offset); [lia|assumption]|lia].
+      + intros ->. split; [reflexivity|constructor].
+  Qed.
+
+  (* one chunk: the bytes that land in the destination are the true bytes of the chunk *)
+  Lemma pt_chunk_ok : forall c ch, Hon c -> 0 <= c_off ch -> 0 < c_size ch -> c_off ch + c_size ch <= n ->
+    exists c', pt_chunk id under c ch = Some (slice (c_off ch) (c_size ch) data, c') /\ Hon c'.
+  Proof.
+    intros c ch Hc H0 Hs He. unfold pt_chunk.
+    destruct (c (id, c_off ch, c_size ch)) as [v|] eqn:Ec.
+    - pose proof (Hon_get _ _ _ _ Hc Ec) as Hv. subst v.
+      assert (Hl : zlen (slice (c_off ch) (c_size ch) data) = c_size ch) by (apply slice_length; try fold n; lia).
+      assert (Hs0 : slice 0 (c_size ch) (slice (c_off ch) (c_size ch) data) = slice (c_off ch) (c_size ch) data).
+      { rewrite <- Hl at 1. apply slice_all. }
+      rewrite Hs0, Hl, Z.eqb_refl. exists c. split; [reflexivity|assumption].
+    - apply Hunder; try assumption; lia.
+  Qed.
+
+  (* the sequential merge writes the rest of the file *)
+  Lemma pt_seq_ok : forall chs fuel c a acc, chain lookup a chs n -> 0 <= a -> (length chs < fuel)%nat -> Hon c ->
+    exists c', pt_seq id lookup under fuel c a acc = (ROk (acc ++ slice a (n - a) data), c') /\ Hon c'.
+  Proof.
+    induction chs as [|ch t IH]; intros fuel c a acc Hch Ha Hf Hc; (destruct fuel as [|fu]; [simpl in Hf; lia|]); cbn [pt_seq].
+    - simpl in Hch. subst a. rewrite (ls_eof _ _ Hlk n ltac:(lia)).
+      exists c. split; [|assumption]. rewrite slice_nonpos by lia. rewrite app_nil_r. reflexivity.
+    - simpl in Hch. destruct Hch as (Hco & Hs & Hl & Hrest). rewrite Hl.
+      destruct (ls_inside _ _ Hlk a ch Ha Hl) as (H0 & Hin & Hend).
+      replace (c_size ch <? 0) with false by lia.
+      destruct (pt_chunk_ok c ch Hc H0 Hs Hend) as (c1 & Hp & Hc1). rewrite Hp.
+      assert (Hlen : zlen (slice (c_off ch) (c_size ch) data) = c_size ch) by (apply slice_length; try fold n; lia).
+      rewrite Hlen, Z.eqb_refl. rewrite Hco.
+      destruct (IH fu c1 (a + c_size ch) (acc ++ slice a (c_size ch) data) Hrest ltac:(lia) ltac:(simpl in Hf; lia) Hc1) as (c' & Heq & Hc').
+      exists c'. split; [|assumption]. rewrite Heq. rewrite <- app_assoc.
+      pose proof (tiles_end_le _ _ _ (chain_tiles _ _ _ _ Hrest)) as Hle.
+      rewrite slice_app by lia.
+      rewrite (slice_eq_len data a (c_size ch + (n - (a + c_size ch))) (n - a)) by lia. reflexivity.
+  Qed.
+
+  (* ---- the batched merge ---- *)
+  Variable mbs : Z.
+  Hypothesis Hmbs : 0 < mbs.
+
+  (* the picks of one batch [bs,be): consecutive chunks from a to be, with their positions in the batch buffer *)
+  Fixpoint pchain (a : Z) (ps : list (chunk * Z)) (bs be : Z) : Prop :=
+    match ps with
+    | [] => a = be
+    | (ch, pos) :: t => c_off ch = a /\ 0 < c_size ch /\ pos = a - bs /\ c_off ch + c_size ch <= be
+                        /\ pchain (a + c_size ch) t bs be
+    end.
+
+  Lemma pick_ok : forall l a b pos be,
+    tiles a l n -> Forall (fits mbs) l -> 0 <= b -> b * mbs < n -> be = Z.min ((b + 1) * mbs) n ->
+    0 <= a <= be -> pos = Z.max a (b * mbs) - b * mbs ->
+    pchain (Z.max a (b * mbs)) (pick l (b * mbs) be pos) (b * mbs) be.
+  Proof.
+    induction l as [|ch t IH]; intros a b pos be Ht Hf Hb Hbs Hbe Ha Hpos.
+    - simpl in *. subst a. lia.
+    - simpl in Ht. destruct Ht as (Hco & Hcs & Ht). inversion Hf as [|? ? (Hsz & Hq) Hft]; subst.
+      pose proof (tiles_end_le _ _ _ Ht) as Hen.
+      set (bs := b * mbs) in *.
+      rewrite !Z.quot_div_nonneg in Hq by lia.
+      cbn [pick].
+      destruct (c_off ch + c_size ch <=? bs) eqn:E1.
+      + replace (Z.max (c_off ch) bs) with (Z.max (c_off ch + c_size ch) bs) by lia.
+        apply IH; try assumption; try lia.
+      + destruct (c_off ch >=? Z.min ((b + 1) * mbs) n) eqn:E2.
+        * simpl. lia.
+        * (* the chunk neither ends before the batch nor starts after it: it lies inside, because it fits *)
+          assert (Hlo : bs <= c_off ch).
+          { destruct (Z_lt_le_dec (c_off ch) bs) as [Hlt|]; [|assumption]. exfalso.
+            assert (c_off ch / mbs < b) by (apply Z.div_lt_upper_bound; lia).
+            assert (b <= (c_off ch + c_size ch - 1) / mbs) by (apply Z.div_le_lower_bound; lia). lia. }
+          assert (Hhi : c_off ch + c_size ch <= Z.min ((b + 1) * mbs) n).
+          { assert (c_off ch / mbs < b + 1) by (apply Z.div_lt_upper_bound; lia).
+            assert (b <= c_off ch / mbs) by (apply Z.div_le_lower_bound; lia).
+            assert (Hqb : (c_off ch + c_size ch - 1) / mbs = b) by lia.
+            pose proof (Z.mul_succ_div_gt (c_off ch + c_size ch - 1) mbs Hmbs) as Hgt.
+            rewrite Hqb in Hgt. lia. }
+          replace (Z.max (c_off ch) bs) with (c_off ch) by lia.
+          simpl. repeat split; try lia.
+          replace (c_off ch + c_size ch) with (Z.max (c_off ch + c_size ch) bs) at 1 by lia.
+          apply IH; try assumption; try lia.
+  Qed.
+
+  Lemma skipn_repeat : forall {A} (x : A) k m, skipn m (repeat x k) = repeat x (k - m).
+  Proof.
+    intros A x k. induction k as [|k IH]; intros m; simpl.
+    - destruct m; reflexivity.
+    - destruct m; simpl; [reflexivity|apply IH].
+  Qed.
+
+  Lemma overlay_prefix : forall (x d : bytes) k pos, pos = zlen x -> (length d <= k)%nat ->
+    overlay (x ++ repeat 0%N k) pos d = (x ++ d) ++ repeat 0%N (k - length d).
+  Proof.
+    intros x d k pos -> Hk. unfold overlay, zlen. rewrite Nat2Z.id.
+    rewrite firstn_app, Nat.sub_diag, firstn_all. simpl. rewrite app_nil_r.
+    rewrite skipn_app. rewrite skipn_all2 by lia. simpl.
+    replace (length x + length d - length x)%nat with (length d) by lia.
+    rewrite skipn_repeat. rewrite <- app_assoc. reflexivity.
+  Qed.
+
+  (* filling the buffer of one batch *)
+  Lemma pt_fill_ok : forall ps a bs be c infos,
+    pchain a ps bs be -> 0 <= bs <= a -> be <= n -> Hon c ->
+    exists c' infos',
+      pt_fill id under ps c (slice bs (a - bs) data ++ repeat 0%N (Z.to_nat (be - a))) infos
+      = (ROk [], c', slice bs (be - bs) data ++ repeat 0%N 0, infos ++ infos')
+      /\ Hon c' /\ holes_loop infos' (a - bs) = Some (be - bs)
+      /\ (infos' = [] \/ exists s t, infos' = (a - bs, s) :: t).
+  Proof.
+    induction ps as [|[ch pos] t IH]; intros a bs be c infos Hp Ha Hbe Hc.
+    - simpl in Hp. subst a. exists c, []. cbn [pt_fill]. replace (Z.to_nat (be - be)) with 0%nat by lia.
+      rewrite (app_nil_r infos).
+      split; [reflexivity|]. split; [assumption|]. split; [reflexivity|]. left; reflexivity.
+    - simpl in Hp. destruct Hp as (Hco & Hcs & Hpos & Hend & Hrest).
+      cbn [pt_fill].
+      assert (Hxl : zlen (slice bs (a - bs) data) = a - bs) by (apply slice_length; try fold n; lia).
+      assert (Hbuf : zlen (slice bs (a - bs) data ++ repeat 0%N (Z.to_nat (be - a))) = be - bs).
+      { unfold zlen in *. rewrite app_length, repeat_length. lia. }
+      rewrite Hbuf.
+      replace ((pos <? 0) || (c_size ch <? 0) || (pos + c_size ch >? be - bs)) with false by lia.
+      destruct (pt_chunk_ok c ch Hc ltac:(lia) Hcs ltac:(lia)) as (c1 & Hpc & Hc1). rewrite Hpc.
+      assert (Hdl : zlen (slice (c_off ch) (c_size ch) data) = c_size ch) by (apply slice_length; try fold n; lia).
+      rewrite Hdl. rewrite Hpos.
+      rewrite (overlay_prefix _ _ _ (a - bs)) by (try (symmetry; exact Hxl); unfold zlen in Hdl; lia).
+      rewrite Hco.
+      assert (Hcat : slice bs (a - bs) data ++ slice a (c_size ch) data = slice bs (a + c_size ch - bs) data).
+      { replace (slice a (c_size ch) data) with (slice (bs + (a - bs)) (c_size ch) data) by (f_equal; lia).
+        rewrite slice_app by lia. f_equal. lia. }
+      rewrite Hcat.
+      replace (Z.to_nat (be - a) - length (slice a (c_size ch) data))%nat with (Z.to_nat (be - (a + c_size ch)))
+        by (rewrite Hco in Hdl; unfold zlen in Hdl; lia).
+      destruct (IH (a + c_size ch) bs be c1 (infos ++ [(a - bs, c_size ch)]) Hrest ltac:(lia) Hbe Hc1)
+        as (c' & infos' & Heq & Hc' & Hh & _).
+      exists c', ((a - bs, c_size ch) :: infos'). rewrite Heq. rewrite <- app_assoc. simpl.
+      repeat split; try assumption.
+      + replace (a - bs <? a - bs) with false by lia. replace (a - bs >? a - bs) with false by lia.
+        replace (a - bs + c_size ch) with (a + c_size ch - bs) by lia. assumption.
+      + right. eexists. eexists. reflexivity.
+  Qed.
+
+  Variable chs : list chunk.
+  Hypothesis Hchs : tiles 0 chs n.
+  Hypothesis Hfits : Forall (fits mbs) chs.
+  Variable workers : Z.
+  Hypothesis Hworkers : 0 < workers.
+
+  Lemma pt_batches_ok : forall nb b c acc,
+    0 <= b -> Z.of_nat nb + b = (n + mbs - 1) / mbs -> acc = slice 0 (Z.min (b * mbs) n) data -> Hon c ->
+    exists c', pt_batches id under nb b chs n mbs workers c acc = (ROk data, c') /\ Hon c'.
+  Proof.
+    pose proof (Z.mul_div_le (n + mbs - 1) mbs Hmbs) as Hdiv1.
+    pose proof (Z.mul_succ_div_gt (n + mbs - 1) mbs Hmbs) as Hdiv2.
+    pose proof (zlen_nonneg data) as Hn0. fold n in Hn0.
+    induction nb as [|nb IH]; intros b c acc Hb Hnb Hacc Hc.
+    - simpl. exists c. split; [|assumption]. subst acc.
+      assert (n <= b * mbs) by (simpl in Hnb; subst b; lia).
+      replace (Z.min (b * mbs) n) with n by lia. unfold n. rewrite slice_all. reflexivity.
+    - cbn [pt_batches].
+      assert (Hbs : b * mbs < n).
+      { assert (b + 1 <= (n + mbs - 1) / mbs) by lia.
+        assert ((b + 1) * mbs <= mbs * ((n + mbs - 1) / mbs)) by (rewrite (Z.mul_comm mbs); apply Z.mul_le_mono_nonneg_r; lia). lia. }
+      set (bs := b * mbs) in *. set (be := Z.min ((b + 1) * mbs) n).
+      assert (Hbebs : bs < be) by (unfold be, bs; lia).
+      replace (be - bs <? 0) with false by lia.
+      replace (workers <=? 0) with false by lia.
+      pose proof (pick_ok chs 0 b 0 be Hchs Hfits Hb Hbs eq_refl ltac:(lia) ltac:(fold bs; lia)) as Hpk.
+      fold bs in Hpk. replace (Z.max 0 bs) with bs in Hpk by lia.
+      destruct (pt_fill_ok _ bs bs be c [] Hpk ltac:(lia) ltac:(unfold be; lia) Hc) as (c1 & infos & Hfill & Hc1 & Hh & Hhd).
+      replace (bs - bs) with 0 in * by lia. rewrite slice_nonpos in Hfill by lia. simpl in Hfill.
+      rewrite Hfill. rewrite app_nil_r.
+      assert (Hck : check_holes infos (be - bs) = true).
+      { unfold check_holes. destruct Hhd as [->|(s & t & ->)]; [reflexivity|].
+        rewrite Hh. apply Z.eqb_refl. }
+      simpl app. rewrite Hck.
+      apply IH; try assumption; try lia.
+      subst acc. replace (Z.min bs n) with bs by lia.
+      rewrite slice_app by lia. replace (0 + bs) with bs by lia.
+      apply slice_eq_len. replace (Z.min ((b + 1) * mbs) n) with be by reflexivity. lia.
+  Qed.
+End PassthroughProofs.
+
+Lemma tiles_length : forall l a n, tiles a l n -> Z.of_nat (length l) <= n - a.
+Proof.
+  induction l as [|ch t IH]; intros a n H; simpl in *; [lia|].
+  destruct H as (_ & Hs & Ht). apply IH in Ht. lia.
+Qed.
+
+(* passthrough_exact, generic form *)
+Section PassthroughTop.
+  Variable id : nat.
+  Variable lookup : Z -> option chunk.
+  Variable under : cache -> chunk -> option (bytes * cache).
+  Variable data : bytes.
+  Variable Hon : cache -> Prop.
+  Hypothesis Hlk : LookupSpec lookup (zlen data).
+  Hypothesis Hdj : LookupDisjoint lookup.
+  Hypothesis Hon_get : forall c o s v, Hon c -> c (id, o, s) = Some v -> v = slice o s data.
+  Hypothesis Hon_add : forall c o s, Hon c -> Hon (cadd c (id, o, s) (slice o s data)).
+  Hypothesis Hunder : forall c ch, Hon c -> 0 <= c_off ch -> 0 <= c_size ch -> c_off ch + c_size ch <= zlen data ->
+    exists c', under c ch = Some (slice (c_off ch) (c_size ch) data, c') /\ Hon c'.
+
+  Lemma pt_fd_exact : forall fuel c mbs workers, zlen data < Z.of_nat fuel -> Hon c ->
+    exists c', pt_fd id lookup under fuel c mbs workers = (ROk data, c') /\ Hon c'
+               /\ c' (id, 0, zlen data) = Some data.
+  Proof.
+    intros fuel c mbs workers Hfuel Hc. unfold pt_fd.
+    pose proof (zlen_nonneg data) as Hn0.
+    destruct (pt_enum_ok id lookup under data Hon Hlk Hdj Hon_get Hon_add Hunder fuel mbs 0 0 false [] ltac:(lia) ltac:(lia) (or_introl eq_refl))
+      as (chs & lg & Heq & Hch & Hfit).
+    rewrite Heq. simpl app. replace (0 + (zlen data - 0)) with (zlen data) by lia.
+    assert (Hall : slice 0 (zlen data) data = data) by apply slice_all.
+    destruct (c (id, 0, zlen data)) as [v|] eqn:Ec.
+    - pose proof (Hon_get _ _ _ _ Hc Ec) as Hv. rewrite Hall in Hv. subst v.
+      exists c. split; [reflexivity|]. split; assumption.
+    - assert (Hdone : forall c1, Hon c1 ->
+                exists c', (ROk data, cadd c1 (id, 0, zlen data) data) = (ROk data, c') /\ Hon c' /\ c' (id, 0, zlen data) = Some data).
+      { intros c1 Hc1. eexists. split; [reflexivity|]. split.
+        - rewrite <- Hall at 2. apply Hon_add. assumption.
+        - unfold cadd. simpl. rewrite Nat.eqb_refl, !Z.eqb_refl. reflexivity. }
+      destruct (lg || (workers <=? 0) || (mbs <=? 0)) eqn:Epath.
+      + (* sequential merge *)
+        destruct (pt_seq_ok id lookup under data Hon Hlk Hon_get Hon_add Hunder chs fuel c 0 [] Hch ltac:(lia)) as (c1 & Hs & Hc1).
+        * pose proof (tiles_length _ _ _ (chain_tiles _ _ _ _ Hch)). lia.
+        * assumption.
+        * rewrite Hs. simpl app. replace (zlen data - 0) with (zlen data) by lia. rewrite Hall.
+          apply Hdone. assumption.
+      + (* batched merge: every chunk fits a batch, there is a buffer and a worker *)
+        apply orb_false_iff in Epath. destruct Epath as (Epath & Em). apply orb_false_iff in Epath. destruct Epath as (Elg & Ew).
+        destruct (Hfit Elg) as (_ & Hfits).
+        assert (Hm : 0 < mbs) by lia. assert (Hw : 0 < workers) by lia.
+        rewrite Z.quot_div_nonneg by lia.
+        assert (Hq : 0 <= (zlen data + mbs - 1) / mbs) by (apply Z.div_pos; lia).
+        destruct (pt_batches_ok id under data Hon Hon_get Hon_add Hunder mbs Hm chs (chain_tiles _ _ _ _ Hch) Hfits workers Hw
+                    (Z.to_nat ((zlen data + mbs - 1) / mbs)) 0 c [] ltac:(lia) ltac:(lia)) as (c1 & Hs & Hc1).
+        * simpl. rewrite slice_nonpos by lia. reflexivity.
+        * assumption.
+        * rewrite Hs. apply Hdone. assumption.
+  Qed.
+End PassthroughTop.
+
 (* ---------- layers and histories ---------- *)
 Definition Honest (L : layer) (c : cache) : Prop := forall k v, c k = Some v -> v = true_bytes L k.
 
@@ -656,6 +997,30 @@ Proof.
   apply read_file_env_exact; try assumption. intros _ _ c0 H0. exact H0.
 Qed.
 
+Lemma lookup_of_disjoint : forall f, FileOK f -> LookupDisjoint (lookup_of f).
+Proof.
+  intros f H. unfold FileOK, lookup_of in *. destruct (f_db f).
+  - unfold chunk_for_offset_db. apply (search_lookup_disjoint _ _ H).
+  - intros x y ch ch' Hx Hy H1 H2. apply (chunk_for_offset_unique _ _ x y ch ch' H Hx Hy H1 H2).
+Qed.
+
+
+(* passthrough_exact for a layer: the file GetPassthroughFd hands out holds exactly the file content, whatever the merge
+   buffer size and worker count, for every honest cache; the merged entry is then cached and honest *)
+Lemma pt_file_exact : forall L i c mbs workers, LayerOK L -> Honest L c ->
+  exists c', pt_file L i c mbs workers = (ROk (f_data (file_at L i)), c') /\ Honest L c'
+             /\ c' (i, 0, zlen (f_data (file_at L i))) = Some (f_data (file_at L i)).
+Proof.
+  intros L i c mbs workers HL Hc. unfold pt_file.
+  apply (pt_fd_exact i _ _ (f_data (file_at L i)) (Honest L)); try assumption.
+  - apply lookup_of_spec. apply (file_at_ok L i HL).
+  - apply lookup_of_disjoint. apply (file_at_ok L i HL).
+  - intros c0 o s v H0 Hg. apply (H0 _ _ Hg).
+  - intros c0 o s H0. apply (honest_cadd L c0 (i, o, s)). assumption.
+  - intros c0 ch H0 _ _ _. eexists. split; [reflexivity|]. apply honest_add_honest. assumption.
+  - lia.
+Qed.
+
 (* the ops an adversary may use: any read with a non-negative offset and length; any interference that leaves
    the cache honest *)
 Definition op_ok (L : layer) (o : op) : Prop :=
@@ -669,18 +1034,21 @@ Definition op_ok (L : layer) (o : op) : Prop :=
 Definition expected_out (L : layer) (o : op) : option rres :=
   match o with
   | Read i off len | ReadI i off len _ => let d := f_data (file_at L i) in Some (ROk (slice off (Z.min len (zlen d - off)) d))
+  | Pt i _ _ => Some (ROk (f_data (file_at L i)))
   | _ => None
   end.
 
 Lemma step_exact : forall L c o, LayerOK L -> Honest L c -> op_ok L o ->
   Honest L (fst (step L c o)) /\ option_map fst (snd (step L c o)) = expected_out L o.
 Proof.
-  intros L c o HL Hc Ho. destruct o as [i off len|i off len env| |ks|c']; simpl in *.
+  intros L c o HL Hc Ho. destruct o as [i off len|i off len env|i mbs workers| |ks|c']; simpl in *.
   - destruct Ho as (Ho & Hl).
     destruct (read_file_exact L i c off len HL Hc Ho Hl) as (c' & tr & Heq & Hc').
     rewrite Heq. simpl. split; [assumption|reflexivity].
   - destruct Ho as (Ho & Hl & He).
     destruct (read_file_env_exact L i env c off len HL Hc He Ho Hl) as (c' & tr & Heq & Hc').
+    rewrite Heq. simpl. split; [assumption|reflexivity].
+  - destruct (pt_file_exact L i c mbs workers HL Hc) as (c' & Heq & Hc' & _).
     rewrite Heq. simpl. split; [assumption|reflexivity].
   - split; [|reflexivity]. apply honest_add_honest. assumption.
   - split; [|reflexivity]. apply honest_fold_cdel. assumption.
@@ -750,4 +1118,19 @@ Proof.
   intros A l off len Ho Hl. destruct (Z_le_gt_dec (zlen l - off) 0) as [H|H].
   - rewrite slice_nonpos by lia. unfold zlen at 1. simpl. lia.
   - rewrite slice_length; try lia.
+Qed.
+
+
+(* a repeat of GetPassthroughFd (any parameters) after the first call, with anything honest happening in between,
+   hands out the same bytes *)
+Lemma pt_file_repeat : forall L i c mbs workers os mbs' workers',
+  LayerOK L -> Honest L c -> Forall (op_ok L) os ->
+  fst (pt_file L i c mbs workers) = ROk (f_data (file_at L i))
+  /\ fst (pt_file L i (exec L (snd (pt_file L i c mbs workers)) os) mbs' workers') = ROk (f_data (file_at L i)).
+Proof.
+  intros L i c mbs workers os mbs' workers' HL Hc Hos.
+  destruct (pt_file_exact L i c mbs workers HL Hc) as (c1 & Heq & Hc1 & _). rewrite Heq. simpl.
+  split; [reflexivity|].
+  destruct (pt_file_exact L i (exec L c1 os) mbs' workers' HL (exec_honest L os c1 HL Hc1 Hos)) as (c2 & Heq2 & _).
+  rewrite Heq2. reflexivity.
 Qed.
